@@ -227,20 +227,23 @@ type DocField struct {
 type IdxTok struct {
 	Key string `json:"key"`
 	A   []Atom `json:"a"`
+	A2  []Atom `json:"a2"` // the same token without a rune cut in the middle (equal to A if there is none)
 	Lit string `json:"lit"`
 	Ex  bool   `json:"ex"`
+	Gap bool   `json:"gap"` // deviation D1 of the specification: a rune cut by partial indexing in a case-sensitive token
 }
 type Rendering struct {
-	S string `json:"s"`
-	U []Atom `json:"u"`
-	F bool   `json:"f"`
+	S  string `json:"s"`
+	U  []Atom `json:"u"`
+	U2 []Atom `json:"u2"` // alternative content satisfying the same demand (whole-rune prefix), empty if none
+	F  bool   `json:"f"`
 }
 type Probe struct {
 	Title string      `json:"title"`
 	Typ   string      `json:"typ"`
 	Kind  string      `json:"kind"`
 	Dem   bool        `json:"dem"`
-	A     []Atom      `json:"a"`
+	Gap   bool        `json:"gap"`
 	Q     []Rendering `json:"q"`
 }
 type Cfg struct {
@@ -624,6 +627,7 @@ func (s *stats) add(o *stats) {
 type e2eQuery struct {
 	n      int
 	q      string
+	q2     string // alternative content meeting the same demand ("" if none)
 	cs     bool
 	envKey string
 	style  string
@@ -719,19 +723,27 @@ func (r *runner) runCase(n int, c *Case, st *stats) []map[string]any {
 				st.styles[rd.S]++
 				found := false
 				var perr error
-				func() {
+				ask := func(q []byte) (ok bool, err error) {
 					defer func() {
 						if x := recover(); x != nil {
-							perr = fmt.Errorf("panic: %v", x)
+							err = fmt.Errorf("panic: %v", x)
 						}
 					}()
 					ast, err := parser.ParseSeqQL(string(q), m)
 					if err != nil {
-						perr = err
-						return
+						return false, err
 					}
-					found, perr = ti.eval(ast.Root, true)
-				}()
+					return ti.eval(ast.Root, true)
+				}
+				found, perr = ask(q)
+				if !found && len(rd.U2) > 0 {
+					// the demand is met by either content (byte prefix or whole-rune prefix of an over-long value)
+					q2 := append([]byte(p.Title+":"), cc.atoms(rd.U2)...)
+					st.evals++
+					if f2, err2 := ask(q2); err2 == nil && f2 {
+						found, perr = true, nil
+					}
+				}
 				if !p.Dem {
 					st.exemptProbes++
 					if found {
@@ -742,9 +754,9 @@ func (r *runner) runCase(n int, c *Case, st *stats) []map[string]any {
 				demanded++
 				if perr != nil {
 					st.parseRejected++
-					mm("own-content query rejected: "+perr.Error(), map[string]any{"query": show(q), "style": rd.S, "kind": p.Kind, "field": p.Title})
+					mm("own-content query rejected: "+perr.Error(), map[string]any{"query": show(q), "style": rd.S, "kind": p.Kind, "field": p.Title, "gap": p.Gap})
 				} else if !found {
-					mm("own-content query does not find the document", map[string]any{"query": show(q), "style": rd.S, "kind": p.Kind, "field": p.Title, "tokens": dumpTokens(metas[0])})
+					mm("own-content query does not find the document", map[string]any{"query": show(q), "style": rd.S, "kind": p.Kind, "field": p.Title, "gap": p.Gap, "tokens": dumpTokens(metas[0])})
 				}
 			}
 		}
@@ -754,6 +766,7 @@ func (r *runner) runCase(n int, c *Case, st *stats) []map[string]any {
 		// expected tokens of the specification, concretely
 		exp := map[string]int{}
 		exempt := map[string]bool{}
+		gapTok := map[string]bool{}
 		titles := map[string]bool{}
 		for _, it := range c.Idx {
 			var k string
@@ -765,7 +778,12 @@ func (r *runner) runCase(n int, c *Case, st *stats) []map[string]any {
 			}
 			exp[k]++
 			if it.Ex {
+				// nothing is asserted about this token, whether the implementation keeps or drops a cut rune at its end
 				exempt[k] = true
+				exempt[it.Key+"\x00"+string(cc.atoms(it.A2))] = true
+			}
+			if it.Gap {
+				gapTok[k] = true
 			}
 		}
 		got := map[string]int{}
@@ -783,7 +801,7 @@ func (r *runner) runCase(n int, c *Case, st *stats) []map[string]any {
 					continue
 				}
 				if !ft.matched[i] && !exempt[k] {
-					mm("token that no own-content query produces", map[string]any{"field": key, "token": show(v), "tokens": dumpTokens(metas[0])})
+					mm("token that no own-content query produces", map[string]any{"field": key, "token": show(v), "gap": gapTok[k], "tokens": dumpTokens(metas[0])})
 				}
 			}
 		}
@@ -831,8 +849,8 @@ func (r *runner) e2eIngest(n int, c *Case, cc *concrete, m seq.Mapping, ing *bul
 	defer r.envMu.Unlock()
 	for pi := range c.Probes {
 		p := &c.Probes[pi]
-		if !p.Dem {
-			continue
+		if !p.Dem || p.Gap {
+			continue // deviation D1 is reported at token level; not repeated end to end
 		}
 		for i, rd := range p.Q {
 			// double quotes always, one more style in rotation
@@ -840,7 +858,11 @@ func (r *runner) e2eIngest(n int, c *Case, cc *concrete, m seq.Mapping, ing *bul
 				continue
 			}
 			q := p.Title + ":" + string(cc.atoms(rd.U)) + ` and Uid:"` + uid + `"`
-			r.e2eQ = append(r.e2eQ, e2eQuery{n: n, q: q, cs: c.Cfg.CS, envKey: key, style: rd.S, kind: p.Kind, value: show(cc.value())})
+			q2 := ""
+			if len(rd.U2) > 0 {
+				q2 = p.Title + ":" + string(cc.atoms(rd.U2)) + ` and Uid:"` + uid + `"`
+			}
+			r.e2eQ = append(r.e2eQ, e2eQuery{n: n, q: q, q2: q2, cs: c.Cfg.CS, envKey: key, style: rd.S, kind: p.Kind, value: show(cc.value())})
 		}
 	}
 	return nil
@@ -852,6 +874,11 @@ func (r *runner) e2eAsk(form string, st *stats) {
 		e := r.envs[q.envKey]
 		resp, err := e.SearchQL(q.q, env.Params{From: 0, To: env.MaxMID, Limit: 10, WithTotal: true})
 		st.e2eQueries++
+		if (err != nil || len(resp.IdSources) != 1) && q.q2 != "" {
+			if resp2, err2 := e.SearchQL(q.q2, env.Params{From: 0, To: env.MaxMID, Limit: 10, WithTotal: true}); err2 == nil && len(resp2.IdSources) == 1 {
+				resp, err = resp2, nil
+			}
+		}
 		if err != nil {
 			emit(map[string]any{"n": q.n, "what": "e2e: search failed: " + err.Error(), "query": show([]byte(q.q)), "form": form, "style": q.style, "kind": q.kind, "value": q.value})
 			continue
@@ -870,7 +897,7 @@ func main() {
 	seed := flag.Int64("seed", 1, "")
 	reps := flag.Int("reps", 1, "concrete strings per class sequence")
 	e2e := flag.Int("e2e", 0, "every k-th case also goes through a real store (0 = off)")
-	summaryPath := flag.String("summary", "", "also write the summary object to this file")
+	summaryPath := flag.String("summary", "", "also append the summary object to this file")
 	flag.Parse()
 	if *tablePath == "" {
 		emit(map[string]any{"infra": "no -table"})
@@ -985,8 +1012,12 @@ func main() {
 		"tokdiff": total.tokdiff, "exempt_probes": total.exemptProbes, "exempt_found": total.exemptFound,
 		"e2e_docs": total.e2e, "e2e_queries": total.e2eQueries, "styles": total.styles, "reps": *reps}
 	if *summaryPath != "" {
+		// one line per driver process: the check feeds large case files in chunks
 		b, _ := json.Marshal(summary)
-		_ = os.WriteFile(*summaryPath, b, 0o644)
+		if f, err := os.OpenFile(*summaryPath, os.O_APPEND|os.O_CREATE|os.O_WRONLY, 0o644); err == nil {
+			_, _ = f.Write(append(b, '\n'))
+			_ = f.Close()
+		}
 	}
 	emit(summary)
 }
